@@ -77,3 +77,16 @@ contract(IO + "_prepTgForSaving", variant="fill", serves=["C04", "C02"], spec_mo
                   ("positive-length", "forall(result['tiers'], lambda t: forall(t['entries'], lambda e: e[0] < e[1]))"),
                   ("tiles-the-span", "forall(result['tiers'], lambda t: t['entries'][0][0] == %s and "
                                      "t['entries'][-1][1] == %s)" % (FLO, FHI))])
+from contracts.c_textgrid import _textgrid  # noqa: E402
+
+contract("spec.harness.tg_dict_roundtrip", serves=["C01", "C03"], spec_module="spec.textgrids", modular=False,
+         configs={"k": [0, 1, 2], "reportingMode": ["silence", "warning", "error"]},
+         inputs=lambda S, cfg: dict(tg=_textgrid(S, "tg", cfg["k"])[0], reportingMode=cfg["reportingMode"]),
+         frame=["tg"], raises={},
+         ensures=[("same-span", "result.minTimestamp == tg.minTimestamp and result.maxTimestamp == tg.maxTimestamp"),
+                  ("same-names-in-order", "result.tierNames == tg.tierNames"),
+                  ("same-tiers", "forall(range(len(tg.tierNames)), lambda i: result.tiers[i].entries == tg.tiers[i].entries "
+                                 "and type(result.tiers[i]) is type(tg.tiers[i]) "
+                                 "and result.tiers[i].name == tg.tiers[i].name "
+                                 "and result.tiers[i].minTimestamp == tg.tiers[i].minTimestamp "
+                                 "and result.tiers[i].maxTimestamp == tg.tiers[i].maxTimestamp)")])
